@@ -21,7 +21,12 @@ CORR   (1) pure: the real find_comment, _send_comment, notify_user (every templa
        successive jobs of one process against the model of job settings.
        (2) system (harness/lib/mon_c10.py): seeded histories of the real Bert-E on the mock host + real git; after
        EVERY event, evaluations possible in that state are repeated three times; the whole explicit history is then
-       replayed with a fresh BertE for every job and the dumps are compared after every job.
+       replayed with a fresh BertE for every job and the dumps are compared after every job.  A scripted family
+       (mon_c10.scripted_histories, both tiers, run first with the corpus): for every kind of job that ends after
+       the remote heads were listed but before the clone (help, status, not-implemented command, unknown command,
+       denied option, wait, after_pull_request hold, commit event without pull request) -> a change from outside
+       (push on the source branch / commit on an integration branch / new pull request branch) -> the commit event
+       of the new tip and the pull request event; same long-lived vs fresh comparison.
 Monitor: third repetition changes nothing; nothing is posted right after an equal comment of the robot; a command
        handler is entered at most once per command comment; long-lived == fresh.  The F4-shaped witness computed
        by the model from the Facts is replayed on the real functions on every run.
@@ -667,7 +672,7 @@ def run_pure_cases(ctx, cases, tag=''):
 # =========================================================================================== system CORR
 
 def run_system(ctx, seeds, length, per_state, replay_history=None, workers=16, p_inject=1.0, max_triples=None,
-               budget_s=None, corpus=True, a_limit=None):
+               budget_s=None, corpus=True, a_limit=None, scripted=True):
     """Histories (and, unless a single history is replayed, the history files of the corpus) in one pool; the
     corpus and the long (lifecycle) histories first.  Histories that have not started when the budget is spent are
     skipped and counted."""
@@ -684,6 +689,10 @@ def run_system(ctx, seeds, length, per_state, replay_history=None, workers=16, p
                     if data.get('kind') == 'history':
                         jobs.append((0, 0, None, data['input']['history'], 1.0, None, None, None))
                         ctx.count('corpus_histories')
+        if scripted:
+            for h in mon_c10.scripted_histories():
+                jobs.append((0, 0, None, h, 1.0, None, None, None))
+                ctx.count('scripted_histories')
         ordered = [s_ for s_ in seeds if s_ % 2 == 1] + [s_ for s_ in seeds if s_ % 2 == 0]
         jobs += [(s_, length, per_state, None, p_inject, max_triples, deadline, a_limit) for s_ in ordered]
     mp = get_context('fork')
@@ -776,7 +785,9 @@ def run(ctx):
                 'settings of up to 3 successive jobs.  system: %d seeded histories (generate_and_run / '
                 'lifecycle_and_run, <=%d generator events; thorough: as many as start within the time budget) with %s '
                 'evaluation(s) repeated three times after the events selected by a seeded coin (quick 1/2, thorough '
-                'every event, capped per history), each history replayed with a fresh BertE per job.  evaluation = one real '
+                'every event, capped per history), each history replayed with a fresh BertE per job; plus the scripted '
+                'family [job that ends before the clone] -> outside change -> commit / pull request event, 8 kinds x 4 '
+                'changes.  evaluation = one real '
                 'handle_pull_request / find / send / notify call or one Bert-E job; non-trivial = distinct (last '
                 'three comments, oracle) in which a command handler ran, distinct (class, outcome) of notify_user, '
                 'distinct settings job sequences with option calls before the last job, distinct (evaluation kind, '
